@@ -107,6 +107,12 @@ theorem a_kkt_point_unique (n : ℕ) (A : List (List α)) (b s s' : List α)
   have h1 := a_kkt_is_global_minimum n A b s' s hsym hpsd hb hs' hs hk' hn
   exact a_minimiser_unique n A b s s' hsym hpd hb hs hs' hk hn' h1
 
+/-- the executable certificate check that the driver evaluates on every model result (`kkt`, `kkt0` in
+    the `c05.fnnls` response) is sound for `Spec.IsKKT` -/
+theorem a_executable_certificate_sound (A : List (List α)) (b s : List α) (tol : α)
+    (h : Spec.isKKTb A b s tol = true) : Spec.IsKKT A b s tol :=
+  isKKTb_sound A b s tol h
+
 end a
 
 /-! ### (b) partial correctness of the active-set solver -/
@@ -149,6 +155,25 @@ theorem b_fnnls_main_exit_entries (solve : List (List α) → List α → Option
   cases hpi : pget P i with
   | true => exact Or.inr (hon i hi hpi)
   | false => exact Or.inl (hoff i hi hpi)
+
+/-- (b, any exit) whatever way the loop is left (main exit or the `no_update` break), the returned vector
+    has length `n`, is non-negative — every entry is exactly zero or exceeds the tolerance — and the
+    gradient vanishes exactly on its non-zero entries. Only the sign condition on the zero entries is
+    specific to the main exit. -/
+theorem b_fnnls_any_exit_primal (solve : List (List α) → List α → Option (List α))
+    (hc : Spec.SolveContract solve) (n : ℕ) (A : List (List α)) (b : List α)
+    (hA : A.length = n) (hrow : ∀ r, r ∈ A → r.length = n) (hb : b.length = n)
+    (tol : α) (htol : 0 ≤ tol) (maxIter : ℕ) (pInit : Option (List ℕ))
+    (hp : ∀ idx, pInit = some idx → idx.Nodup ∧ ∀ i, i ∈ idx → i < n)
+    (d : List α) (ex : Impl.Exit) (lc lc2 : ℕ)
+    (h : Impl.fnnls solve A b tol maxIter pInit = .ok d ex lc lc2) :
+    d.length = n ∧ ∀ i, i < n → vget d i = 0 ∨ (tol < vget d i ∧ vget (matVec A d) i = vget b i) := by
+  obtain ⟨hd, P, _, hon, hoff⟩ :=
+    fnnls_certified solve hc n A b hA hrow tol htol maxIter hb pInit hp d ex lc lc2 h
+  refine ⟨hd, fun i hi => ?_⟩
+  cases hpi : pget P i with
+  | true => exact Or.inr (hon i hi hpi)
+  | false => exact Or.inl (hoff i hi hpi).1
 
 /-- (b ∘ a) hence, for symmetric positive semi-definite `A`, a main-exit result is optimal among all
     `x ≥ 0` up to `tol·Σx`, with or without the warm start. -/
@@ -221,8 +246,8 @@ theorem b_reconPosOnly_main_exit_kkt (solve : List (List α) → List α → Opt
 /-- (d) `AbstractInversion.reconstruction` with the positive-only solver and
     `force_edge_pixels_to_zeros`: the result is the embedding (`solutions = zeros(n);
     solutions[values_to_solve] = …`) of the positive-only solver's result `y` for the reduced system
-    (rows/columns of the forced indices removed); every forced parameter is exactly zero; and when `y`
-    left the solver through its main exit, the kept entries of `s` are `y` and `y` satisfies the KKT
+    (rows/columns of the forced indices removed); every forced parameter is exactly zero; the kept entries
+    of `s` are the entries of `y`; and when `y` left the solver through its main exit it satisfies the KKT
     conditions of the reduced system. -/
 theorem d_forced_zeros (solve : List (List α) → List α → Option (List α))
     (hc : Spec.SolveContract solve) (eps atol rtol : α) (heps : 0 ≤ eps) (maxIter : ℕ)
@@ -237,10 +262,9 @@ theorem d_forced_zeros (solve : List (List α) → List α → Option (List α))
       ∧ s = scatter (zeros n) keep y
       ∧ s.length = n
       ∧ (∀ i, i < n → i ∈ ids → vget s i = 0)
-      ∧ (ex = .main →
-          y.length = keep.length
-          ∧ (∀ k (hk : k < keep.length), vget s keep[k] = vget y k)
-          ∧ Spec.IsKKT (subMat A keep) (gather b keep) y (eps * (keep.length : α))) := by
+      ∧ y.length = keep.length
+      ∧ (∀ k (hk : k < keep.length), vget s keep[k] = vget y k)
+      ∧ (ex = .main → Spec.IsKKT (subMat A keep) (gather b keep) y (eps * (keep.length : α))) := by
   intro ids keep
   unfold Impl.reconstruction at h
   simp only [if_true, hA] at h
@@ -248,7 +272,11 @@ theorem d_forced_zeros (solve : List (List α) → List α → Option (List α))
   · simp at h
   · rename_i y ex lc lc2 hy
     cases h
-    refine ⟨y, ex, lc, lc2, hy, rfl, by rw [scatter_length, zeros_length], ?_, ?_⟩
+    have hyl : y.length = keep.length :=
+      (reconPosOnly_certified solve hc keep.length (subMat A keep) (gather b keep)
+        (subMat_length A keep) (subMat_row_length A keep) (gather_length b keep) eps heps maxIter usePInit
+        y ex lc lc2 hy).1
+    refine ⟨y, ex, lc, lc2, hy, rfl, by rw [scatter_length, zeros_length], ?_, hyl, ?_, ?_⟩
     · intro i hi hmem
       have hnk : i ∉ keep := by
         intro hk
@@ -257,14 +285,14 @@ theorem d_forced_zeros (solve : List (List α) → List α → Option (List α))
         rw [hc'] at this
         simp at this
       rw [vget_scatter_not_mem _ _ _ _ hnk, vget_zeros]
-    · intro hex
-      subst hex
-      obtain ⟨hyl, hk⟩ := b_reconPosOnly_main_exit_kkt solve hc keep.length (subMat A keep) (gather b keep)
-        (subMat_length A keep) (subMat_row_length A keep) (gather_length b keep) eps heps maxIter usePInit
-        y lc lc2 hy
-      refine ⟨hyl, fun k hk' => ?_, hk⟩
+    · intro k hk'
       exact vget_scatter_mem (zeros n) keep y (List.nodup_range.filter _)
         (fun i hi => by rw [zeros_length]; exact List.mem_range.mp (List.mem_filter.mp hi).1) hyl k hk'
+    · intro hex
+      subst hex
+      exact (b_reconPosOnly_main_exit_kkt solve hc keep.length (subMat A keep) (gather b keep)
+        (subMat_length A keep) (subMat_row_length A keep) (gather_length b keep) eps heps maxIter usePInit
+        y lc lc2 hy).2
 
 /-- (d') without `force_edge_pixels_to_zeros` the positive-only reconstruction is the solver's result for
     the full system. -/
